@@ -369,6 +369,11 @@ func (c *Ctx) finish(meta propMeta, start time.Time) int {
 		viol = append(viol, o)
 	}
 
+	for _, f := range known.Findings {
+		if f.Property == c.Prop && !seenKnown[f.Rule+"|"+f.Key] {
+			fmt.Printf("NOTE: listed finding not observed on this tree (repaired, or its construct changed): property=%s rule=%s [%s]\n", c.Prop, f.Rule, f.Key)
+		}
+	}
 	replayDir := filepath.Join(c.Verif, "evidence", "replay")
 	os.MkdirAll(replayDir, 0o755)
 	// remove stale replay files of this property
